@@ -47,6 +47,7 @@ def run(P, rep, tier):
     rep.attempt(r4_wrapper_stricter, P, rep, ctx)
     rep.attempt(r5_const_specialisation, P, rep, ctx)
     rep.attempt(r7_make_mandatory, P, rep, ctx)
+    rep.attempt(r8_atomic_types_source, P, rep, ctx)
     rep.floor("C13.R1", 8)
     rep.floor("C13.R2", 2)
     rep.floor("C13.R3", 4)
@@ -492,6 +493,23 @@ def r5_const_specialisation(P, rep, ctx):
     need_ovr = f.refuses_when([[FD, f"{FD} is not None", f"{nm} in {mc}.__fields__"], [f"not {fi.params[1]}"], [f"not is_enum({FD}.type_)"], [f"not is_literal({FD}.type_)"]], src_edge=(L, "iter"), targets=[L, g.exit])
     rep.check(bool(need_ovr) and bool(val_raises), "C13.R5", af.qual,
               "overriding an ordinary inherited field with a constant needs override=True", af.loc(), construct="override required", message="add_const_fields silently replaces an ordinary inherited field")
+
+
+def r8_atomic_types_source(P, rep, ctx):
+    """The override check looks at the schema classes nested in a field through util.models.field_atomic_types.  pydantic
+    (v1) resolves forward references in `ModelField.type_` (and its sub-fields) only: `outer_type_` keeps the annotation as
+    written, so a nested schema behind a forward reference inside a container stays an unresolved ForwardRef there and is
+    not seen by the check.  The types must be taken from `type_`."""
+    fi = P.func("util.models.field_atomic_types")
+    f = F(ctx, fi)
+    mf = fi.params[0]
+    srcs = []
+    for c in local_calls(fi.node):
+        if isinstance(c.func, ast.Name) and c.func.id == "traverse_typehint" and c.args:
+            site = node_of(f.g, c)
+            srcs.append(f.x_at(site, c.args[0]) if site is not None else norm(c.args[0]))
+    rep.check(bool(srcs) and all(s_ == f"{mf}.type_" for s_ in srcs), "C13.R8", fi.qual, "nested types of a field are read from the resolved ModelField.type_", fi.loc(), construct=f"field_atomic_types source {srcs}",
+              message=f"field_atomic_types traverses {srcs} instead of `{mf}.type_`: annotations that pydantic has not resolved (forward references inside containers) hide nested schemas from the override check, so a child may widen such a field unnoticed")
 
 
 def r7_make_mandatory(P, rep, ctx):
